@@ -145,13 +145,18 @@ def pyramid_shapes(H, W, J):
     return (r, c), lows, highs, pads
 
 
-def ref_forward(S, bx, H, W, biort, qshift, J, bp=False):
-    """reference forward: returns (lowpass Img, [per level: dict slot -> (real Img, imag Img)], [scales Img])"""
-    img = Img([(bx, (), ONE, AxisTable.identity((bx.id, 0), H), AxisTable.identity((bx.id, 1), W))])
-    if H % 2:
-        img = img.map_axis(0, lambda t: spec.replicate_ext(t, 0, 1))
-    if W % 2:
-        img = img.map_axis(1, lambda t: spec.replicate_ext(t, 0, 1))
+def ref_forward(S, bx, H, W, biort, qshift, J, bp=False, img=None, first_level=1):
+    """reference forward: returns (lowpass Img, [per level: dict slot -> (real Img, imag Img)], [scales Img]).
+    `img`: start from this (already extended) image instead of the identity over bx;
+    `first_level` = 2 starts directly with the q-shift levels (J counts the levels computed)."""
+    if img is None:
+        img = Img([(bx, (), ONE, AxisTable.identity((bx.id, 0), H), AxisTable.identity((bx.id, 1), W))])
+        if H % 2:
+            img = img.map_axis(0, lambda t: spec.replicate_ext(t, 0, 1))
+        if W % 2:
+            img = img.map_axis(1, lambda t: spec.replicate_ext(t, 0, 1))
+    if first_level == 2:
+        return _ref_qshift_levels(S, img, qshift, J, bp, [], [])
     levels, scales = [], []
     m0, m1 = table_len(S, biort, 'h0o'), table_len(S, biort, 'h1o')
     r0, r1 = brole(biort, 'h0o'), brole(biort, 'h1o')
@@ -171,9 +176,15 @@ def ref_forward(S, bx, H, W, biort, qshift, J, bp=False):
     lev[1], lev[4] = z1, z2
     levels.append(lev)
     scales.append(lolo)
+    return _ref_qshift_levels(S, lolo, qshift, J - 1, bp, levels, scales)
+
+
+def _ref_qshift_levels(S, lolo, qshift, n_levels, bp, levels, scales):
+    if n_levels <= 0:
+        return lolo, levels, scales
     mq = table_len(S, qshift, 'h0a')
     q = lambda k: brole(qshift, k)
-    for j in range(1, J):
+    for j in range(n_levels):
         r, c = lolo.shape
         if r % 4:
             lolo = lolo.map_axis(0, lambda t: spec.replicate_ext(t, 1, 1))
